@@ -450,6 +450,15 @@ func c10RealGit(sh *explore.Shard, idx *int64, dir string) {
 				res := cli.Run(gd, "", nil, 60*time.Second, append([]string{"--no-progress"}, args...)...)
 				check("invalid option or ROOT", res, args)
 			}
+			// every boolean-valued option with every kind of value that is no boolean
+			for _, o := range []string{"branches", "no-branches", "tags", "no-tags", "remotes", "no-remotes", "notes", "no-notes", "stash", "no-stash",
+				"json", "progress", "no-progress", "verbose", "no-verbose", "critical", "show-refs"} {
+				for _, v := range []string{"maybe", "2", ""} {
+					args := []string{"--" + o + "=" + v}
+					res := cli.Run(gd, "", nil, 60*time.Second, append([]string{"--no-progress"}, args...)...)
+					check("invalid option or ROOT", res, args)
+				}
+			}
 			for _, c := range []mrepo.ConfigEntry{{Key: "sizer.threshold", Value: "abc"}, {Key: "sizer.names", Value: "bogus"}, {Key: "sizer.progress", Value: "maybe"},
 				{Key: "refgroup.bad.includeRegexp", Value: "("}, {Key: "refgroup.empty.name", Value: "no rules"}} {
 				os.WriteFile(filepath.Join(gd, "config"), append(append([]byte(nil), cfgBase...), []byte(realgit.ConfigText([]mrepo.ConfigEntry{c}))...), 0o644)
@@ -480,6 +489,6 @@ func c10RealGit(sh *explore.Shard, idx *int64, dir string) {
 
 func init() {
 	Registry["C10"] = &Check{Level: "fault_enumeration", Worker: c10Worker, QuickBudget: 100 * time.Second, ThoroughBudget: 20 * time.Minute,
-		Rule:        "the real binary with the fault-injecting model git first on PATH, 6 scenarios (root kinds x table/JSON v1 with ROOT/JSON v2 with refgroup; merge history verbose and with progress; 3000 references): the fault-free run is recorded, then EVERY single fault of the model is injected in turn: for every git invocation of the run (identified as kind, n-th) exit status 1/128/SIGKILL after its complete output, death after k bytes of stdout for every record boundary and +-1 byte, first, middle and last byte (quick) or every k (thorough), and death after reading j stdin lines for every j. Oracle: exit 0 implies stdout byte-identical to the fault-free report; a fired fault implies non-zero exit, empty stdout, an error message (not a crash trace) on stderr and termination within 60 s; `config --get` exiting 1 is git's 'unset' answer and must not be an error. Every single-split chunking (record boundaries +-1 byte) of every output stream with per-record flushing and no fault must give the fault-free report; thorough adds every pair of simultaneous faults among the scanning pipelines' invocations at record granularity (first two scenarios). In-process (widening the scenario set): every 41st (7th) repository of the mixed family x every invocation x EVERY byte position x exit 1/SIGKILL must return an error and never panic. With real git: every reachable object removed in turn, 14 invalid option/ROOT vectors, 6 invalid configurations, shallow and absent repository must give a clean error. non-trivial = every injected fault",
+		Rule:        "the real binary with the fault-injecting model git first on PATH, 6 scenarios (root kinds x table/JSON v1 with ROOT/JSON v2 with refgroup; merge history verbose and with progress; 3000 references): the fault-free run is recorded, then EVERY single fault of the model is injected in turn: for every git invocation of the run (identified as kind, n-th) exit status 1/128/SIGKILL after its complete output, death after k bytes of stdout for every record boundary and +-1 byte, first, middle and last byte (quick) or every k (thorough), and death after reading j stdin lines for every j. Oracle: exit 0 implies stdout byte-identical to the fault-free report; a fired fault implies non-zero exit, empty stdout, an error message (not a crash trace) on stderr and termination within 60 s; `config --get` exiting 1 is git's 'unset' answer and must not be an error. Every single-split chunking (record boundaries +-1 byte) of every output stream with per-record flushing and no fault must give the fault-free report; thorough adds every pair of simultaneous faults among the scanning pipelines' invocations at record granularity (first two scenarios). In-process (widening the scenario set): every 41st (7th) repository of the mixed family x every invocation x EVERY byte position x exit 1/SIGKILL must return an error and never panic. With real git: every reachable object removed in turn, 14 invalid option/ROOT vectors plus every boolean-valued option with 3 non-boolean values, 6 invalid configurations, shallow and absent repository must give a clean error. non-trivial = every injected fault",
 		Assumptions: []string{"single faults in quick; pairs only among rev-list / cat-file invocations at record granularity in thorough", "the model git's death is an exit status or a signal after a prefix of its correct output"}}
 }
